@@ -247,7 +247,11 @@ def model_env(env):
             and not env["transactional_ddl"])
 
 
-def gen_env(rng, mode, case):
+def has_expr(case):
+    return any(o["op"] == "execute_expr" for o in all_ops(case))
+
+
+def gen_env(rng, mode, case, plain=True, noliteral=False):
     has_auto = any(o["op"] == "autocommit" for b in case["bodies"].values() for side in ("up", "down") for o in b[side])
     env = {
         "literal_binds": rng.random() < 0.7,
@@ -258,13 +262,16 @@ def gen_env(rng, mode, case):
         "version_table_schema": "main" if rng.random() < 0.1 else None,
         "output_encoding": "utf-8" if rng.random() < 0.15 else None,
         # (with an autocommit_block in a body this combination is known finding C12-AUTOCOMMIT-EXT: kept rare)
-        "external_txn": mode == "fake" and rng.random() < (0.02 if has_auto else 0.2),
+        "external_txn": mode == "fake" and rng.random() < ((0.02 if plain else 0.0) if has_auto else 0.2),
         "callbacks": rng.random() < 0.2,
         "base_prefix": rng.random() < 0.3,
         "tag": "c12 tag" if mode == "real" and rng.random() < 0.2 else None,
         "buffer_in_env": mode == "real" and rng.random() < 0.2,
         "start_in_env": mode == "real" and rng.random() < 0.3,
     }
+    if has_expr(case):
+        # op.execute(<expression construct>) needs literal_binds=True (as the shipped env.py sets it) to give an executable script
+        env["literal_binds"] = not noliteral
     return env
 
 
@@ -347,6 +354,12 @@ def one_case(ctx, case, mode, pending):
             c2["env"] = dict(c2.get("env") or {}, external_txn=False)
             if judge(execute_case(c2, mode))[0] == "ok":
                 tags = tags + ["autocommit-external-only"]
+        if has_expr(case) and not case_env(case)["literal_binds"]:
+            # narrow test for C12-NOLITERAL: the same case rendered with literal_binds=True
+            c2 = copy.deepcopy(case)
+            c2["env"] = dict(c2.get("env") or {}, literal_binds=True)
+            if judge(execute_case(c2, mode))[0] == "ok":
+                tags = tags + ["noliteral-only"]
         het = hetero_ops(case)
         if het:
             # narrow test for C12-HETERO: the same case with those bulk_inserts executed row by row
@@ -534,13 +547,17 @@ def run(ctx, n_cases=None, rng_name="main"):
     for i in range(n):
         mode = "real" if rng.random() < 0.3 else "fake"
         lang_only = rng.random() < 0.35
-        tabs = rng.random() < 0.04
-        hetero = rng.random() < 0.04
-        bindtext = rng.random() < 0.04
+        # inputs that trip a known finding are kept rare and mutually exclusive (one known cause per case, so that the
+        # narrow classifiers, which neutralise exactly one cause, stay decisive)
+        special = rng.random()
+        tabs = special < 0.04
+        hetero = 0.04 <= special < 0.08
+        bindtext = 0.08 <= special < 0.12
+        noliteral = 0.12 <= special < 0.15   # SQL expression constructs rendered without literal_binds: finding C12-NOLITERAL
         case = G.gen_case(rng, 9 if ctx.thorough else 6, real=(mode == "real"), lang_only=lang_only, tabs=tabs, hetero=hetero,
                           bindtext=bindtext)
         case["lang_only"] = lang_only
-        case["env"] = gen_env(rng, mode, case)
+        case["env"] = gen_env(rng, mode, case, plain=not (tabs or hetero or bindtext or noliteral), noliteral=noliteral)
         one_case(ctx, case, mode, pending)
         if len(pending) >= 100:
             flush(ctx, pending)
@@ -566,6 +583,8 @@ def classify(failure):
         return "C12-BINDTEXT"
     if "autocommit-external-only" in tags:
         return "C12-AUTOCOMMIT-EXT"
+    if "noliteral-only" in tags and has_expr(case):
+        return "C12-NOLITERAL"
     return None
 
 
